@@ -38,7 +38,11 @@ TEXT = {
               '(List.foldl of iterStep) over the selected items of the body run with the loop variable and forloop bound by the '
               'formulas (tablerow: between its cell decorations), cut at the first break, going on after continue, failures '
               'located at the loop tag, with forloop and the loop variable restored at the end; nothing selected and an else '
-              'clause: that clause. Tie: the `loops` stream '
+              'clause: that clause. From source bytes (Proofs.C11Source): for integers a <= b (int64, b - a <= 100000: larger ranges are '
+              'outside the model) and an identifier i other than forloop, the source {% for i in (a..b) %}{{ i }}{% endfor %} - any good '
+              'delimiters, a and b in decimal, every value layer, the standard output layer (any that prints an int as its decimal text) - makes run return exactly the decimal numerals of a, a+1, ..., b concatenated '
+              '(for_range_numerals_source, the arguments parsed by the scanner and grammar model: parse_rangeArgs); with reversed and '
+              'literal offset:/limit: arguments, for all integers, the numerals of selectItems reversed off lim [a..b] (for_range_mods_source, parse_rangeArgs_mods; for_range_source for any argument text that parses so; a loop variable named forloop is shadowed by the forloop record, for_var_named_forloop). Tie: the `loops` stream '
               '(exhaustive offset/limit/reversed/cols/break grid plus random nestings) answers every case by the model and the '
               'real engine, and the real output is compared byte for byte with an independent reference loop '
               '(harness/ref_prog.go).'),
